@@ -59,6 +59,13 @@ func c10Scenarios(thorough bool) []*scenario {
 			{{Kind: "auth", User: "u", Pw: "old"}, {Kind: "auth", User: "u", Pw: "bad"}},
 		}})
 	}
+	// a login-triggered local upgrade that fails (the password does not meet the policy any more):
+	// the failed internal request must not cost the dispatcher anything
+	out = append(out, &scenario{Name: "scaled-k1-up[local]-upgrade-refused-by-policy", Upgrades: "local", Policy: "score >= 3", CapLimit: 1, Default: 1, Users: stdUsers, Clients: [][]cop{
+		{{Kind: "auth", User: "u", Pw: "old"}, {Kind: "list"}},
+		{{Kind: "auth", User: "v", Pw: "vpw"}},
+		{{Kind: "auth", User: "u", Pw: "old"}},
+	}})
 	// several hook rounds (one client, changes one after the other) with a hook that cannot be
 	// started, fails, or hangs: after every round the hooks loop must be back at its loop head
 	for _, hk := range []string{"nostart", "fail", "hang"} {
